@@ -78,7 +78,10 @@ func (s bitmap32) Remove(value uint32) {
 func (s bitmap32) Xor(provider Provider[uint32]) {
 	switch typedProvider := provider.(type) {
 	case bitmap32:
-		s.bitmap.Xor(typedProvider.bitmap)
+		// roaring's in-place Xor may hand one of its operand's containers to the receiver, or flip bits in it
+		// (an array container of the receiver against a bitmap container of the operand): {0}.Xor({0..5999}) took
+		// 0 out of the operand as well. Operate on a copy so that the operand stays what it was, as bitmap64 does.
+		s.bitmap.Xor(typedProvider.bitmap.Clone())
 
 	case Duplex[uint32]:
 		providerCopy := roaring.New()
